@@ -552,6 +552,27 @@ theorem validateFields_pos : ∀ (n i : Nat) {tbl : Tbl}, TblOK S tbl →
       apply Res.Holds.bind (checkAggrFunctionArgs_pos S h0 f' hf'); intro _ _
       exact ih _ (setField_ok S ht i hf')
 
+theorem rewriteFieldNames_pos : ∀ (n i : Nat) {tbl : Tbl} (tys : List Nat), TblOK S tbl →
+    Pos S (rewriteFieldNames n i tbl tys) (fun r => TblOK S r.1) := by
+  intro n
+  induction n with
+  | zero => intro i tbl tys ht; simpa [rewriteFieldNames] using ht
+  | succ m ih =>
+    intro i tbl tys ht
+    unfold rewriteFieldNames
+    split
+    · simpa using ht
+    · rename_i nm f hget
+      split
+      · split
+        · split
+          · exact ih _ _ ht
+          · apply Res.Holds.bind (rewrite_pos S _ ht (getElem_ok S ht hget)); intro f' hf'
+            apply Res.Holds.bind (rt_pos S _ _); intro _ _
+            exact ih _ _ (setField_ok S ht i hf')
+        · exact ih _ _ ht
+      · exact ih _ _ ht
+
 theorem parseWhere_pos (efuel lfuel spos : Nat) (sel : SelAcc) (hs : PosOKs S sel.fields)
     (wpos : Nat) {ts : Toks} (h : TokS S ts) :
     Pos S (parseWhere pf efuel lfuel spos sel wpos ts) (fun _ => True) := by
@@ -566,7 +587,10 @@ theorem parseWhere_pos (efuel lfuel spos : Nat) (sel : SelAcc) (hs : PosOKs S se
       intro p hp
       obtain ⟨n, x⟩ := p
       exact (posOKs_iff S _).mp hs x (List.of_mem_zip hp).2
-    apply Res.Holds.bind (clauseLoop_pos S h0 pf efuel lfuel lfuel _ htbl h1)
+    apply Res.Holds.bind (rewriteFieldNames_pos S h0 _ _ sel.types htbl)
+    rintro ⟨tbl1, tys1⟩ htbl1
+    dsimp only
+    apply Res.Holds.bind (clauseLoop_pos S h0 pf efuel lfuel lfuel _ htbl1 h1)
     intro c hc
     apply Res.Holds.bind (check_pos S h0 _ hc e he); intro e' he'
     apply Res.Holds.bind (rt_pos S _ _); intro _ _
